@@ -18,9 +18,17 @@
    _needs_relink found it to already have one of the LISTED types ("reflink" accepts a copy) - this
    is what the code does with fallback lists, which is weaker than "the first available type".  For
    a single configured type the three cases collapse to "has that type" (C10_relink_single), with
-   the documented exception: a hard link of an empty object is an independent empty file. *)
+   the documented exception: a hard link of an empty object is an independent empty file.
+
+   Single-file targets (the checked-out path itself, ROOT key without old meta): C10_single_converges,
+   C10_single_idempotent, C10_single_link_record over Model checkout1, tied to the real code by the
+   same correspondence (harness/props/_objcheckout_single.py).
+
+   The deciders of _remove / _relink / _checkout_file and two facts about the loops of _checkout are
+   REGENERATED from the source (Gen/ObjCheckout.v) and tied to the readings used in the proofs by
+   Proofs/ObjCoTie.v, which every theorem of the convergence family depends on. *)
 From Coq Require Import NArith List Bool.
-From DvcData Require Import Base.Val Base.PyBase Gen.PyTypes Gen.Relink Model.ObjCheckout Proofs.ObjCheckoutProofs Proofs.ObjCheckoutProofs2 Proofs.ObjCoBase Proofs.ObjCoRelinkList Proofs.ObjCoForced Proofs.ObjCoIdem Proofs.ObjCoRelink.
+From DvcData Require Import Base.Val Base.PyBase Gen.PyTypes Gen.Relink Model.ObjCheckout Proofs.ObjCheckoutProofs Proofs.ObjCheckoutProofs2 Proofs.ObjCoBase Proofs.ObjCoRelinkList Proofs.ObjCoForced Proofs.ObjCoIdem Proofs.ObjCoRelink Proofs.ObjCoSingle.
 Import ListNotations.
 Open Scope N_scope.
 
@@ -143,6 +151,79 @@ Proof.
   exact (forced_record H g c w tgt order h1 h3 h4 h6 t0 lrest h7 h9 k m).
 Qed.
 Print Assumptions C10_link_record.
+
+(* ---- single-file targets (the ROOT key: the checked-out path itself; Model checkout1).  The prior
+   path is arbitrary (absent, any kind, even a dangling link); the target object is in the intact
+   cache; force; at least one usable link type. *)
+Record Conv1 (H : bytes -> oid) (g : cfg) (c : cache) (o : oid) (co : cobj) (t0 : lkind) (lrest : list lkind) : Prop := {
+  c1_hash : forall b, is_nil (H b) = false;
+  c1_nocoll : forall a b, H a = H b -> a = b;
+  c1_oid : is_nil o = false /\ HashInfo_isdir (hi o) = false;
+  c1_cached : oassoc o c = Some co;
+  c1_intact : forall o' co', oassoc o' c = Some co' -> H (c_bytes co') = o';
+  c1_force : g_force g = true;
+  c1_links : g_links g = t0 :: lrest }.
+
+(* the path ends up as a readable file with the bytes of the target's cache object *)
+Theorem C10_single_converges : forall H g c o co t0 lrest cur, Conv1 H g c o co t0 lrest ->
+  let r := checkout1 H g c cur o in
+  (r_out r = ONothing \/ r_out r = ODone (negb (g_relink g))) /\
+  exists n, kassoc root_key (r_ws r) = Some n /\ f_broken n = false /\ f_bytes n = c_bytes co.
+Proof.
+  intros H g c o co t0 lrest cur [h1 h2 [h3 h3'] h4 h5 h6 h7] r.
+  destruct (single_forced H g c o co h1 h3 h4 h6 t0 lrest h7 h5 h2 cur) as [Ho [n [E1 [E2 [E3 _]]]]].
+  split; [exact Ho|]. exists n. auto.
+Qed.
+Print Assumptions C10_single_converges.
+
+(* a plain second checkout of the result has nothing to do, changes nothing, saves no record *)
+Theorem C10_single_idempotent : forall H g c o co t0 lrest cur, Conv1 H g c o co t0 lrest ->
+  let r := checkout1 H g c cur o in
+  forall g2, g_relink g2 = false ->
+    checkout1 H g2 c (kassoc root_key (r_ws r)) o = mk_result ONothing (r_ws r) c None.
+Proof.
+  intros H g c o co t0 lrest cur [h1 h2 [h3 h3'] h4 h5 h6 h7] r g2 Hr.
+  destruct (single_forced H g c o co h1 h3 h4 h6 t0 lrest h7 h5 h2 cur) as [_ [n [E1 [E2 [E3 _]]]]].
+  fold r in E1. rewrite E1, (single_second H c o co h1 h3 h4 h5 n g2 E2 E3 Hr). f_equal.
+  destruct (checkout1_ws H g c cur o) as [x Ex]. fold r in Ex. rewrite Ex in E1 |- *.
+  rewrite kassoc_put1 in E1. now subst x.
+Qed.
+Print Assumptions C10_single_idempotent.
+
+(* the saved record is the path's own mtime (the inode half is judged by the oracle) *)
+Theorem C10_single_link_record : forall H g c o co t0 lrest cur, Conv1 H g c o co t0 lrest ->
+  let r := checkout1 H g c cur o in
+  forall rec, r_links r = Some rec ->
+  exists n, kassoc root_key (r_ws r) = Some n /\ rec = [(root_key, f_mtime n)].
+Proof.
+  intros H g c o co t0 lrest cur [h1 h2 [h3 h3'] h4 h5 h6 h7] r rec Hrec.
+  destruct (single_forced H g c o co h1 h3 h4 h6 t0 lrest h7 h5 h2 cur) as [_ [n [E1 [_ [_ E4]]]]].
+  exists n. split; [exact E1|]. now apply E4.
+Qed.
+Print Assumptions C10_single_link_record.
+
+(* [Conv1] is satisfiable; a symlink prior with another content is replaced by a hard link, the
+   record is saved, the second call has nothing to do *)
+Theorem C10_single_instance :
+  let H := fun b : bytes => 1 :: b in
+  let g := mk_cfg true true None [hardlink_name] [LHard] true 9 in
+  let c := [([1; 65], mk_cobj [65] 1 1 5); ([1; 66], mk_cobj [66] 2 1 6)] in
+  let cur := Some (mk_fnode [66] true (Some [1; 66]) false 2 1 6) in
+  Conv1 H g c [1; 65] (mk_cobj [65] 1 1 5) LHard [] /\
+  let r := checkout1 H g c cur [1; 65] in
+  r_out r = ODone false /\ r_links r = Some [(root_key, 5)] /\
+  option_map (fun n => (f_bytes n, f_link n, f_ino n)) (kassoc root_key (r_ws r)) = Some ([65], false, 1).
+Proof.
+  split.
+  - constructor; try reflexivity; try (split; reflexivity).
+    + intros a b E. now injection E.
+    + intros o' co'. simpl.
+      destruct (list_N_eqb o' [1; 65]) eqn:E1; [apply list_N_eqb_spec in E1; subst; intros E; now injection E as <-|].
+      destruct (list_N_eqb o' [1; 66]) eqn:E2; [apply list_N_eqb_spec in E2; subst; intros E; now injection E as <-|].
+      intros E; discriminate.
+  - vm_compute. repeat split; reflexivity.
+Qed.
+Print Assumptions C10_single_instance.
 
 (* full statement of C10_converges (no restriction on the prior workspace): refuted.  Forced
    checkout, cached target, every key in the order, usable link type - and a file outside the
